@@ -2669,6 +2669,14 @@ fn run(cfg: &Config, s: &mut Session) {
         s.case("hintmap", j.clone(), r.clone());
     }
 
+    // ---- 1e. COLR graphs whose traversal costs 2^depth (finding family, see known_findings.d/C02.json)
+    let exp = stress::colr_exp_jobs();
+    let res = run_jobs(&exp.iter().map(|(_, _, j)| j.clone()).collect::<Vec<_>>(), Duration::from_secs(if thorough { 20 } else { 8 }), 4);
+    for ((kind, d, j), r) in exp.iter().zip(res.iter()) {
+        s.count(&format!("colr-exponential kind={kind} depth={d}: {}", r.split_whitespace().next().unwrap_or("?")));
+        s.oracle("colr-paint-of-nested-graph-returns-within-the-time-cap", r.starts_with("ok "), || format!("family=colr-exp kind={kind} depth={d} {j}"), || r.clone());
+    }
+
     // ---- 5. depth / size stress and capacity boundaries (synthetic inputs, small explicit stack): see c02/stress.rs
     let sj = stress_jobs(&mut rng, thorough);
     let reqs: Vec<String> = sj.iter().map(|j| j.req.clone()).collect();
@@ -2698,6 +2706,7 @@ fn stress_jobs(rng: &mut Rng, thorough: bool) -> Vec<stress::Job> {
     sj.extend(stress::ifturi_jobs(thorough));
     sj.extend(stress::iftapply_jobs(thorough));
     sj.extend(stress::gsubnest_jobs(thorough));
+    sj.extend(stress::cfffd_jobs(thorough));
     sj
 }
 
